@@ -40,6 +40,10 @@ class TermCx:
         self.memo = {}
         self.busy = set()
         self.track_mut = True
+        self.ctx_bb = None   # block of the statement whose operands are being evaluated (use-site for in-place updates)
+        self.lazy = {}       # local -> (base term, ops) : in-place updates are filtered by use site on retrieval
+        self.op_memo = {}
+        self.op_busy = set()
         self.frames = frames  # call-site frames of the inlining stack: distinguishes executions of one callee site
 
     def site(self, bb):
@@ -99,7 +103,44 @@ class TermCx:
                 return TermCx(self.prog, cf, sub, self.depth + 1, frames=self.frames + (("clo", clo[1]),)).local(0)
         return r
 
+    def _precedes(self, op_bb):
+        """can the update at the end of block op_bb execute before the statement being evaluated?"""
+        if self.ctx_bb is None:
+            return True
+        key = ("succreach", op_bb)
+        r = self.fn.__dict__.setdefault("_succ_reach", {}).get(op_bb)
+        if r is None:
+            r = set()
+            for (t, _lab) in self.fn.succs().get(op_bb, ()):
+                r |= self.fn.reach(t)
+            self.fn.__dict__["_succ_reach"][op_bb] = r
+        return self.ctx_bb in r
+
+    def _with_ops(self, base, ops):
+        """ops: [(bb, raw op)] evaluated lazily — the arguments of an update that cannot precede the use are never looked at (they
+        may depend on that very use: `let n = buf.len(); .. buf.copy_from_slice(&input[..n])`)"""
+        keep = []
+        for rec in ops:
+            bb, term, idx, path, nm = rec[:5]
+            if not self._precedes(bb):
+                continue
+            key = (id(term), idx)
+            if key not in self.op_memo:
+                if key in self.op_busy:
+                    continue
+                self.op_busy.add(key)
+                saved = self.ctx_bb
+                self.ctx_bb = bb
+                others = tuple(self.operand(a) for j, a in enumerate(term["args"]) if j != idx)
+                self.ctx_bb = saved
+                self.op_busy.discard(key)
+                self.op_memo[key] = ("op", nm, others, self.site(bb), path)
+            keep.append(self.op_memo[key])
+        return ("mut", base, tuple(keep)) if keep else base
+
     def local(self, l):
+        if l in self.lazy:
+            return self._with_ops(*self.lazy[l])
         if l in self.memo:
             return self.memo[l]
         is_arg = 1 <= l <= self.fn.arg_count
@@ -157,15 +198,27 @@ class TermCx:
                 nm = ci.get("name") if ci else "?"
                 if ci and (ci.get("trait") or "").endswith("::Iterator"):
                     continue  # consuming an iterator is not an update of a collection
-                others = tuple(self.operand(a) for j, a in enumerate(term["args"]) if j != idx)
-                ops.append(("op", nm, others, self.site(bb), path))
+                ops.append((bb, term, idx, path, nm))
             if ops:
-                t = ("mut", t, tuple(ops))
+                # a use sees only the updates that can execute before it (a buffer's length read before it is filled is the
+                # length of the unfilled buffer)
+                self.busy.discard(l)
+                self.lazy[l] = (t, tuple(ops))
+                return self._with_ops(t, tuple(ops))
         self.busy.discard(l)
         self.memo[l] = t
         return t
 
     def rvalue(self, rv, site):
+        saved = self.ctx_bb
+        if isinstance(site, tuple) and len(site) >= 2 and isinstance(site[1], int) and site[0] == self.fn.key:
+            self.ctx_bb = site[1]
+        try:
+            return self._rvalue(rv, site)
+        finally:
+            self.ctx_bb = saved
+
+    def _rvalue(self, rv, site):
         k = rv["k"]
         if k == "use":
             return self.operand(rv["op"])
@@ -207,6 +260,15 @@ class TermCx:
         return ("unknown", rv.get("dbg", k)[:60])
 
     def call(self, term, site):
+        saved = self.ctx_bb
+        if isinstance(site, tuple) and site and isinstance(site[-1], int):
+            self.ctx_bb = site[-1]
+        try:
+            return self._call(term, site)
+        finally:
+            self.ctx_bb = saved
+
+    def _call(self, term, site):
         ci = callee_of(term)
         args = tuple(self.operand(a) for a in term["args"])
         if ci is None:
